@@ -135,7 +135,12 @@ func c35LGen(t *rapid.T) c35LCase {
 	}
 	c.order = rapid.Permutation(c.ready2[1:]).Draw(t, "deliveryOrder")
 	c.afterSelf = rapid.IntRange(0, len(c.order)).Draw(t, "afterOwnConfirmation")
+	// the member's own signing ends at start+offset: within the protocol
+	// window (<= timeout) or, one case in four, after the timeout block
 	c.selfEndOff = uint64(rapid.IntRange(0, int(signingAttemptMaximumProtocolBlocks)).Draw(t, "ownEndBlock"))
+	if rapid.IntRange(0, 3).Draw(t, "ownEndAfterTimeout") == 0 {
+		c.selfEndOff = uint64(signingAttemptMaximumProtocolBlocks) + uint64(rapid.IntRange(1, 8).Draw(t, "ownEndLateBy"))
+	}
 	c.lateSig = rapid.SampledFrom([]int{1, 1, 3}).Draw(t, "lateSignature")
 	return c
 }
@@ -153,6 +158,11 @@ type c35LExpect struct {
 func c35LModel(c c35LCase, start2, timeout2 uint64) c35LExpect {
 	exp := c35LExpect{endBlock: start2 + c.selfEndOff} // this member's own confirmation
 	mismatch := false
+	if start2+c.selfEndOff > timeout2 {
+		// its own signing ended after the attempt timed out: not a valid confirmation
+		exp.missing = append(exp.missing, c.self)
+		exp.endBlock = 0
+	}
 	for _, m := range c.ready2[1:] {
 		switch c.modes[m] {
 		case "confirm2", "late1+confirm2":
